@@ -112,6 +112,8 @@ def c_hom2(c):
     a = c.ahrs
     p, q = c.unit_quat('p'), c.unit_quat('q')
     P, Q = a.Quaternion(p, versor=False), a.Quaternion(q, versor=False)
+    pq = qmul(p, q)
+    c.lemma('|pq|=1', eq(dot(pq, pq), 1))
     PQ = a.Quaternion(P * Q)
     c.goal_eq('renormalised=product', PQ.A, qmul(p, q))
     c.observe('PQ', PQ.A)
